@@ -58,6 +58,16 @@ def check(ctx):
         found = http_common.run_pathfuzz(ctx) or found
     else:
         ctx.failed_obligations.append("harness-build-http")
+    # provisioning requests that krill's own children send after multi-step histories (a class lost at the parent, …):
+    # scenarios in corpus/system-c16 through the in-process system, judged by `no_panic` (driver sysreq)
+    if vlib.build_harness(ctx, ["system"]):
+        def sig16(c, idx, v):
+            w = vlib.strip_obs(c["ops"][idx][0]).split()
+            return "oracle:no_panic:system:" + (w[0] if w else "?") if "no_panic" in v else "sysreq:" + (w[0] if w else "?")
+        traces = vlib.corpus_traces(ctx, "system", corpus="system-c16", extra_args=["rp=0"])
+        found = vlib.judge_traces(ctx, "system", "sysreq", traces, sig16) or found
+    else:
+        ctx.failed_obligations.append("harness-build")
     vlib.obligations_broken(ctx, found)
     ctx.assumptions += [
         "the panic-site census (translator panic_sites, theorem all_panic_sites_reviewed) counts index/slice, unwrap, expect, panic-family "
